@@ -646,7 +646,9 @@ impl MetricsCollector {
 
         // No failures = available (1.0 is correct for no data)
         let availability = if total > 0 {
-            (total - failed) as f64 / total as f64
+            // Failures are also recorded for requests refused before they count as a query
+            // (validation errors), so `failed` can exceed `total`.
+            total.saturating_sub(failed) as f64 / total as f64
         } else {
             1.0
         };
